@@ -4,8 +4,8 @@ import json, os
 V = os.path.dirname(os.path.dirname(os.path.abspath(__file__)))
 CLAIMED = {
  # id: (category, technique, text, note)
- 'C01': ('proof', 'deductive VCs from the real AST (pyvc): one arbitrary iteration of the record loop against the specification automaton (stutter/simulation rule), decision tables of the classifiers over the whole shipped mapping / ion table / ligand classes, Group.setup, extract_groups, section writer, average census; GROUND table values',
-         'terminus tagging proved per record for every loop state and column content (atom-name field from listed classes); classification, model pKa assignment and once-only extraction proved; the nine table values by ground evaluation.',
+ 'C01': ('other', 'deductive VCs from the real AST (pyvc): one arbitrary iteration of the record loop against the specification automaton (stutter/simulation rule), decision tables of the classifiers over the whole shipped mapping / ion table / ligand classes, Group.setup, extract_groups, section writer, average census; GROUND table values',
+         'terminus tagging proved per record for every loop state and column content (atom-name field from listed classes); classification, model pKa assignment and once-only extraction proved; the nine table values by ground evaluation. The clause "once in the reported summary" is refuted for groups discarded due to covalent coupling (known finding D15: N-terminal Asp/His/Cys), so the level is "other".',
          'stutter rule + composition step (bounded census monitor); Atom.set_properties under contract in C07; A-ASCII'),
  'C02': ('proof', 'deductive VCs from the real AST (pyvc): representation invariant pKa = model + SUM established by calculate_total_pka (fold rule), ghost stale-flag sequencing proof of calculate_pka, swap/undo proof of the coupling probe on symbolic determinant lists, averaging, rendering ropes; frame census of writers',
          'INV proved to be established, preserved by the coupling probe and by averaging, and re-established on every path of calculate_pka; printed rows proved to be exactly the determinants. Numeric text (2 decimals) only by the bounded monitor.',
